@@ -25,6 +25,8 @@ type pipeCase struct {
 type counter struct {
 	n       int
 	minSeen int
+	sched   *sched.Sched
+	doneAt  map[*sched.G]int // operations a helper had performed when it called Done
 }
 
 func (c *counter) Add(delta int) { c.n += delta }
@@ -32,6 +34,11 @@ func (c *counter) Done() {
 	c.n--
 	if c.n < c.minSeen {
 		c.minSeen = c.n
+	}
+	if c.sched != nil {
+		if g := c.sched.Current(); g != nil {
+			c.doneAt[g] = g.Ops
+		}
 	}
 }
 func (c *counter) Wait() {}
@@ -56,6 +63,7 @@ func execPipe(c pipeCase, src core.Source) (res core.Result) {
 	received := map[int][]int{}
 	afterClose := map[int]string{}
 	s := sched.New(src, false)
+	group.sched, group.doneAt = s, map[*sched.G]int{}
 	uninstall := s.Install()
 	defer uninstall()
 	registered := -1
@@ -124,6 +132,12 @@ func execPipe(c pipeCase, src core.Source) (res core.Result) {
 	for _, g := range s.Goroutines() {
 		if !g.Finished() {
 			res.Violation = core.Violate("C06/goroutine-not-finished", "%s: goroutine %s did not finish", desc, g.Name)
+			return
+		}
+	}
+	for g, ops := range group.doneAt {
+		if g.Ops > ops {
+			res.Violation = core.Violate("C06/helper-works-after-done", "%s: helper goroutine %s told the caller's wait group it was done and then performed %d more queue operations (a Wait() could return while values are still being delivered)", desc, g.Name, g.Ops-ops)
 			return
 		}
 	}
